@@ -77,7 +77,7 @@ fn plans(prop: &str, tier: &str) -> Vec<Plan> {
     let quick = tier == "quick";
     let mut v = vec![];
     let safe_only = matches!(prop, "C01" | "C02" | "C03" | "C05" | "C17");
-    let xcap = if quick { 30_000 } else { 300_000 };
+    let xcap = if quick { 12_000 } else { 300_000 };
     let mk = |label: &str, cfg: &Cfg, d: usize, m: usize, b: usize| -> Plan {
         // the largest default-answer box of a configuration also runs the operand-consuming opcodes one slot deeper
         let o = Opts { max_depth: d, max_memo: m, dev_budget: b, ref_in_key: safe_only, xval_cap: xcap, fringe_consumers: b == 0 && m == 1 && (d == 3 || (quick && d >= 3)), ..Opts::default() };
@@ -100,14 +100,14 @@ fn plans(prop: &str, tier: &str) -> Vec<Plan> {
                     // protocol 2, header) is shallow by nature
                     ("C01" | "C03" | "C17", true, false) => match p {
                         5 => vec![(3, 1, 0), (2, 2, 0), (2, 1, 1)],
-                        4 => vec![(2, 2, 0), (2, 1, 1)],
+                        4 => vec![(2, 1, 1)],
                         3 => vec![(3, 1, 0), (2, 1, 1)],
-                        2 => vec![(2, 2, 0), (2, 1, 1)],
+                        2 => vec![(2, 1, 1)],
                         1 => vec![(3, 1, 0), (2, 2, 0), (2, 1, 1)],
                         _ => vec![(4, 1, 0), (2, 2, 0), (2, 1, 1)],
                     },
                     ("C01" | "C03" | "C17", true, true) => {
-                        let mut b = vec![(2, 2, 0), (1, 2, 1)];
+                        let mut b = if p == 4 || p == 2 { vec![(1, 1, 1)] } else { vec![(2, 2, 0), (1, 2, 1)] };
                         if p0 {
                             // mutator x emission interplay on drawn values (non-empty string AND a special replacement
                             // character): two value deviations per step; protocol 0 carries the text encodings
